@@ -290,27 +290,60 @@ def _assigned_values(fn: FuncInfo, name: str) -> List[ast.expr]:
     return out
 
 
-def _positions_of(fn: FuncInfo, e: ast.expr, depth: int = 0) -> Optional[Tuple[str, bool]]:
-    """If `e` evaluates to positions (indexes) of a sequence: (text of that sequence, descending?)"""
-    if depth > 6:
+def _positions_of(fn: FuncInfo, e: ast.expr, depth: int = 0, p: Optional[Program] = None) -> Optional[Tuple[str, bool]]:
+    """If `e` evaluates to positions (indexes) of a sequence: (text of that sequence, descending?). With a Program the
+    positions are followed through private helpers: a helper's parameter is what its callers pass, a helper call is what
+    its single return statement returns; a sub-sequence taken by unpacking (`first, *rest = positions`) keeps the order."""
+    if depth > 8:
         return None
     if isinstance(e, ast.Name):
         for v in _assigned_values(fn, e.id):
-            r = _positions_of(fn, v, depth + 1)
+            r = _positions_of(fn, v, depth + 1, p)
             if r is not None:
                 return r
+        if p is not None and e.id in fn.params:
+            from .collect import default_inline
+            if default_inline(fn):
+                idx = fn.params.index(e.id)
+                found = []
+                scope = list(fn.cls.methods.values()) if fn.cls is not None else list(fn.module.functions.values())
+                for caller in scope:
+                    if caller is fn:
+                        continue
+                    for c in calls_in(caller, deep=True):
+                        try:
+                            r_ = p.resolve_call(caller, c)
+                        except Exception:
+                            r_ = None
+                        if r_ is fn:
+                            off = 1 if (fn.cls is not None and isinstance(c.func, ast.Attribute) and "staticmethod" not in fn.decorators) else 0
+                            ai = idx - off
+                            arg = c.args[ai] if 0 <= ai < len(c.args) else next((k.value for k in c.keywords if k.arg == e.id), None)
+                            found.append(None if arg is None else _positions_of(caller, arg, depth + 1, p))
+                if found and all(f is not None for f in found) and len({f[1] for f in found}) == 1:
+                    return found[0]
         return None
     if isinstance(e, ast.Call):
         fname = e.func.id if isinstance(e.func, ast.Name) else (e.func.attr if isinstance(e.func, ast.Attribute) else "")
+        if p is not None:
+            try:
+                callee = p.resolve_call(fn, e)
+            except Exception:
+                callee = None
+            if isinstance(callee, FuncInfo) and not callee.decorators:
+                rets = [n for n in walk_shallow(callee.node) if isinstance(n, ast.Return) and n.value is not None]
+                if len(rets) == 1:
+                    return _positions_of(callee, rets[0].value, depth + 1, p)
+                return None
         if fname == "reversed" and e.args:
-            r = _positions_of(fn, e.args[0], depth + 1)
+            r = _positions_of(fn, e.args[0], depth + 1, p)
             return None if r is None else (r[0], not r[1])
         if fname == "sorted" and e.args:
-            r = _positions_of(fn, e.args[0], depth + 1)
+            r = _positions_of(fn, e.args[0], depth + 1, p)
             rev = next((k.value for k in e.keywords if k.arg == "reverse"), None)
             return None if r is None else (r[0], isinstance(rev, ast.Constant) and bool(rev.value))
         if fname in ("tuple", "list", "iter") and e.args:
-            return _positions_of(fn, e.args[0], depth + 1)
+            return _positions_of(fn, e.args[0], depth + 1, p)
         if fname == "range" and e.args:
             step = e.args[2] if len(e.args) > 2 else None
             lens = [a for a in e.args if isinstance(a, ast.Call) and isinstance(a.func, ast.Name) and a.func.id == "len" and a.args] + \
@@ -326,7 +359,7 @@ def _positions_of(fn: FuncInfo, e: ast.expr, depth: int = 0) -> Optional[Tuple[s
             return ast.unparse(g.iter.args[0]), False
         return None
     if isinstance(e, ast.Subscript) and isinstance(e.slice, ast.Slice):
-        r = _positions_of(fn, e.value, depth + 1)
+        r = _positions_of(fn, e.value, depth + 1, p)
         if r is None:
             return None
         st = e.slice.step
@@ -335,7 +368,7 @@ def _positions_of(fn: FuncInfo, e: ast.expr, depth: int = 0) -> Optional[Tuple[s
     return None
 
 
-def stale_index_deletes(fn: FuncInfo) -> List[Tuple[ast.AST, str, bool]]:
+def stale_index_deletes(fn: FuncInfo, p: Optional[Program] = None) -> List[Tuple[ast.AST, str, bool]]:
     """Loops that delete list elements by position while walking the positions in ASCENDING order: after the first
     deletion every later position is off by one (a wrong element is removed, or IndexError).
     Returns (node, description, ok) for every recognised delete-by-position loop; ok=False is the defect."""
@@ -343,7 +376,7 @@ def stale_index_deletes(fn: FuncInfo) -> List[Tuple[ast.AST, str, bool]]:
     for loop in ast.walk(fn.node):
         if not isinstance(loop, ast.For) or not isinstance(loop.target, ast.Name):
             continue
-        pos = _positions_of(fn, loop.iter)
+        pos = _positions_of(fn, loop.iter, 0, p)
         if pos is None:
             continue
         seq, desc = pos
